@@ -23,7 +23,7 @@ Kinds  == {"Create", "Upgrade", "Toggle"}
 TmCases  == [fam : {"client"}, ty : {"tm"}, kind : Kinds, st : States \cup {"expired"}, f : {"valid", "wrongcons", "nilcons", "zeroheight", "notrust", "nospecs"}]
 TssCases == [fam : {"client"}, ty : {"tss"}, kind : Kinds, st : States, f : {"valid", "wrongcons", "nilcons", "badaddr", "nopubkey"}]
 BscCases == [fam : {"client"}, ty : {"bsc"}, kind : Kinds, st : {"fresh", "sametype", "expired"},
-             epoch : {"0", "1", "4"}, height : {"zero", "epochmult", "other"}, extra : {"short", "novals", "vals", "odd"},
+             epoch : {"0", "1", "4"}, height : {"zero", "epochmult", "other"}, extra : {"short", "sealonly", "novals", "vals", "odd"},
              sig : {"good", "garbage"}, shape : {"ok", "longbloom", "longnonce", "nodiff", "wrongcons", "novalidators", "hugechainid"}]
 EthCases == [fam : {"client"}, ty : {"eth"}, kind : Kinds, st : {"fresh", "sametype", "expired"},
              f : {"valid", "nodiff", "gasover", "wrongcons", "nilcons", "longbloom", "bigextra", "nobasefee", "zeroheight"}]
